@@ -551,7 +551,8 @@ class Director(object):
         self.n = r.choice([lo, 2, 2, 3, 3, 4])
         self.H = r.randint(1, 8 if thorough and r.random() < 0.4 else 4)
         self.JH = r.randint(0, 6 if thorough and r.random() < 0.4 else 3)
-        self.start = Decimal(r.choice(['1.00', '1.50', '1.80', '2.00', '3.10']))
+        # (0.95 and 9.90: the bar crosses 1.00 / 10.00, where a textual comparison of heights would go wrong)
+        self.start = Decimal(r.choice(['1.00', '1.50', '1.80', '2.00', '3.10', '0.95', '9.90', '4.85']))
         self.inc = Decimal(r.choice(['0.01', '0.03', '0.05', '0.10']))
         self.p_tie = r.choice([0.0, 0.3, 0.6, 0.9, 1.0])
         self.heckle = r.choice([0.0, 0.05, 0.15, 0.4])
